@@ -188,6 +188,7 @@ class Verifier:
                             pre_states.append(s)
                 for s0 in pre_states:
                     ex.no_contract_for = None  # only the outermost call is executed; recursion uses the contract
+                    ex.verifying = c          # loop invariants of the side-car apply to the loops of this function
                     fv = FuncV(node, mod, target, cls=ci.name if ci else None)
                     kwargs = dict(values)
                     if "self" in kwargs:
@@ -207,7 +208,17 @@ class Verifier:
                     o = ob(name)
                     o.paths += 1
                     r, m, reason = self.prove(pc, cond)
-                    if r == "sat" and o.status == "discharged":
+                    if r == "sat" and name.startswith("loop-invariant/"):
+                        # the declared invariant is not inductive for this code: nothing is refuted (the bookkeeping
+                        # may have been rewritten), but everything proved UNDER the invariant is undecided with it
+                        if o.status == "discharged":
+                            o.status, o.detail = "undecided", f"{why}: not established (counter-model of the step)"
+                            o.solver_output = str(m)[:2000]
+                        for o2 in obls.values():
+                            if o2.status == "discharged" and o2 is not o and not o2.name.split("/", 1)[-1].startswith("loop-invariant/"):
+                                o2.status = "undecided"
+                                o2.detail = f"proved only under the loop invariant {name.split('/')[1]}, which could not be established"
+                    elif r == "sat" and o.status == "discharged":
                         o.status, o.detail = "violated", why
                         o.model = (None, m)
                         o.solver_output = str(m)[:2000]
